@@ -54,7 +54,7 @@ ASSUMPTIONS = [
     'event weights float64 with variances; event-level extra coord int64, event-level mask, outer masks on every dim',
 ]
 REQUIRED_CLASSES = [
-    'early_events_between_pixel_t0s', 'int32_event_coord', 'events_bitwise', 'all_bins_empty', 'some_bin_empty', 'nan_events', 'finite_events', 'edges_bitwise',
+    'event_tof_in_ns', 'buffer_permuted', 'early_events_between_pixel_t0s', 'int32_event_coord', 'events_bitwise', 'all_bins_empty', 'some_bin_empty', 'nan_events', 'finite_events', 'edges_bitwise',
     'edges_other_unit', 'buffer_gappy', 'buffer_contiguous', 'dtype_float32_result', 'dtype_float64_result',
     'int_event_coord', 'geometry_positions', 'geometry_precomputed', 'container_dataset', 'container_dataarray',
     'input_unchanged', 'data_preserved', 'masks_preserved', 'grid_2d', 'grid_1d', 'per_pixel_final_energy',
@@ -94,7 +94,7 @@ def cases(tier):
     layouts.sort(key=lambda l: (len(l[2]), sum(l[2]), l[0], l[2]))
     out = []
     for dims, shape, counts in layouts:
-        for buffer in ('contiguous', 'gappy'):
+        for buffer in ('contiguous', 'gappy', 'permuted'):
             for geometry in ('positions', 'precomputed'):
                 for edges in (('none', 'same', 'other') if 'tof' in dims else ('none',)):
                     for container in ('dataarray', 'dataset'):
@@ -124,7 +124,7 @@ def _pixel_dims(dims):
     return [d for d in dims if d != 'tof']
 
 
-def build_input(case, ev_dtype, pattern='default', early_value=None):
+def build_input(case, ev_dtype, pattern='default', early_value=None, tof_unit='us'):
     """Return (data array, per-bin list of global event ids in row-major bin order)."""
     dims, shape, counts = case['dims'], case['shape'], case['counts']
     nb = len(counts)
@@ -142,6 +142,14 @@ def build_input(case, ev_dtype, pattern='default', early_value=None):
             begin.append(pos)
             pos += c
         end = [b + c for b, c in zip(begin, counts, strict=True)]
+    elif case['buffer'] == 'permuted':
+        # bins stored back to front but without any unreferenced event: the bin sizes add up to the buffer length
+        # although the buffer is not in bin order (what a transposed view of a 2-d bin grid looks like)
+        order, begin, end = [], [0] * nb, [0] * nb
+        for b in reversed(range(nb)):
+            begin[b] = len(order)
+            order += ids_per_bin[b]
+            end[b] = len(order)
     else:
         order, begin, end = [None], [0] * nb, [0] * nb
         for b in reversed(range(nb)):
@@ -152,7 +160,9 @@ def build_input(case, ev_dtype, pattern='default', early_value=None):
     nbuf = len(order)
     ev_id = np.array([(-1 if e is None else e) for e in order], dtype=np.int64)
     tof_vals = np.array([(77.0 if e is None else tofs[e]) for e in order], dtype=np.float64)
-    if ev_dtype in ('int64', 'int32'):
+    if tof_unit == 'ns':
+        tof_var = sc.array(dims=['event'], values=(np.floor(tof_vals * 1000.0) + 337).astype(ev_dtype), unit='ns', dtype=ev_dtype)
+    elif ev_dtype in ('int64', 'int32'):
         tof_var = sc.array(dims=['event'], values=np.floor(tof_vals).astype(ev_dtype), unit='us', dtype=ev_dtype)
     else:
         tof_var = sc.array(dims=['event'], values=tof_vals.astype(ev_dtype), unit='us', dtype=ev_dtype)
@@ -279,18 +289,23 @@ def run_case(case, rec):
                 _one(case, target, ev_dtype, rec, e_dtype='float32')
             if target.startswith('energy_transfer') and ev_dtype == 'float64':
                 _one(case, target, ev_dtype, rec, pattern='between')
+            if ev_dtype == 'int64' and target in ('energy_transfer_direct', 'energy_transfer_indirect', 'wavelength'):
+                # raw integer clock ticks in ns that are not whole microseconds
+                _one(case, target, ev_dtype, rec, tof_unit='ns')
         if target in ('wavelength', 'dspacing', 'Q'):
             # int32 event coordinates (raw detector ticks), where scipp supports the arithmetic
             _one(case, target, 'int32', rec)
 
 
-def _one(case, target, ev_dtype, rec, e_dtype='float64', pattern='default'):
+def _one(case, target, ev_dtype, rec, e_dtype='float64', pattern='default', tof_unit='us'):
     dims, shape, counts = case['dims'], case['shape'], case['counts']
     pdims = _pixel_dims(dims)
     pshape = [s for d, s in zip(dims, shape, strict=True) if d != 'tof']
     tgt = real_target(target)
     sub = {'target': target, 'event_dtype': ev_dtype, 'energy_dtype': e_dtype, 'tof_pattern': pattern}
-    da, ids_per_bin = build_input(case, ev_dtype)
+    da, ids_per_bin = build_input(case, ev_dtype, tof_unit=tof_unit)
+    if tof_unit != 'us':
+        rec.cls('event_tof_in_ns')
     if pattern == 'between':
         # place the early events between the smallest and the second smallest per-pixel flight time t0 of the fixed leg
         probe = da.copy(deep=False)
@@ -348,7 +363,7 @@ def _one(case, target, ev_dtype, rec, e_dtype='float64', pattern='default'):
     ev_tof = np.concatenate([in_buf.coords['tof'].values[b:e] for b, e in in_slices]) if in_slices else np.zeros(0)
     dense = sc.DataArray(
         sc.zeros(dims=['event'], shape=[n_events], unit='counts'),
-        coords={'tof': sc.array(dims=['event'], values=ev_tof.astype(in_buf.coords['tof'].values.dtype), unit='us', dtype=ev_dtype)},
+        coords={'tof': sc.array(dims=['event'], values=ev_tof.astype(in_buf.coords['tof'].values.dtype), unit=in_buf.coords['tof'].unit, dtype=ev_dtype)},
     )
     for name in da.coords:
         if name in ('tof', 'temperature') or name.startswith('label_'):
